@@ -353,6 +353,10 @@ func (pr *printer) node(id, lvl int, x bool) bool {
 		}
 		pr.node(n.Kids[0], 0, x)
 		pr.sb.WriteString(")")
+	case "bal":
+		pr.sb.WriteString("(?<" + n.Nm + ">")
+		pr.node(n.Kids[0], 0, x)
+		pr.sb.WriteString(")")
 	case "look", "nlook", "lookb", "nlookb", "atom":
 		pr.sb.WriteString(map[string]string{"look": "(?=", "nlook": "(?!", "lookb": "(?<=", "nlookb": "(?<!", "atom": "(?>"}[n.Op])
 		pr.node(n.Kids[0], 0, x)
